@@ -67,7 +67,7 @@ Definition m_get1 (h : heap) (v : hval) (pe : pelem) : heap * option hval :=
             match nth_item n (citems c) with
             | Some e =>
               match k with
-              | KStr => let '(h1, l') := alloc h KStr [(nokey, e)] in (drop_val h1 v, Some (HRef l' None))
+              | KStr => let '(h1, l') := alloc (clone_val h e) KStr [(nokey, e)] in (drop_val h1 v, Some (HRef l' None))
               | _ => (drop_val (clone_val h e) v, Some e)
               end
             | None => (drop_val h v, None)
